@@ -461,7 +461,7 @@ pub fn run(prop: &str, seed: u64, n: usize, outdir: &str, _corpus: Option<&str>)
         let mut gd = gen_dict(&mut rng, &go);
         // 1 dictionary in 4 (not for C10, whose text stream edits matrix.def) uses a raw or dual bigram
         // connector instead of matrix.def; the model takes every connection cost through the hook anyway
-        if prop != "C10" && gd.nright >= 2 && gd.nleft >= 2 && gd.nright <= 6 && rng.chance(1, 4) {
+        if prop != "C10" && gd.nright >= 2 && gd.nleft >= 2 && gd.nright <= 6 && rng.chance(1, if prop == "C08" { 2 } else { 4 }) {
             let bg = crate::c07::gen_bigram_sized(&mut rng, false, false, gd.nright - 1, gd.nleft - 1);
             gd.bigram = Some((bg.right_file(), bg.left_file(), bg.cost_file(), rng.chance(1, 2)));
             // the model is given the costs the files DECLARE (the defining sums, computed from the generator's own
